@@ -11,6 +11,7 @@
 
 #include "RitzPairs.h"
 #include "Orthogonalization.h"
+#include "../Util/VerifHooks.h"
 
 namespace Spectra {
 
@@ -19,6 +20,9 @@ namespace Spectra {
 template <typename Scalar>
 class SearchSpace
 {
+#ifdef SPECTRA_VERIF
+    friend struct ::SpectraVerifAccess;
+#endif
 private:
     using Index = Eigen::Index;
     using Matrix = Eigen::Matrix<Scalar, Eigen::Dynamic, Eigen::Dynamic>;
